@@ -491,7 +491,7 @@ type ClientSession struct {
 	pendingElicitationsMu sync.Mutex
 	pendingElicitations   map[string]chan struct{}
 
-	// resourceSubsMu guards resourceSubs.
+	// resourceSubsMu guards resourceSubs and resourceSubsClosed.
 	resourceSubsMu sync.Mutex
 	// resourceSubs maps a subscribed resource URI to the cancel func of the
 	// goroutine running its dedicated subscriptions/listen stream. Populated
@@ -499,6 +499,8 @@ type ClientSession struct {
 	// Unsubscribe straight to the resources/subscribe and resources/unsubscribe
 	// RPCs and leaves this map untouched.
 	resourceSubs map[string]context.CancelFunc
+	// resourceSubsClosed is set by Close: Subscribe fails from then on.
+	resourceSubsClosed bool
 }
 
 type clientSessionState struct {
@@ -1396,6 +1398,12 @@ func (cs *ClientSession) Subscribe(ctx context.Context, params *SubscribeParams)
 
 	var listenCtx context.Context
 	cs.resourceSubsMu.Lock()
+	if cs.resourceSubsClosed {
+		// Close has cancelled all subscriptions: a new listen stream could never
+		// be cancelled, and would leave its goroutine behind.
+		cs.resourceSubsMu.Unlock()
+		return fmt.Errorf("%w: session is closed", ErrConnectionClosed)
+	}
 	if _, exists := cs.resourceSubs[uri]; !exists {
 		var cancel context.CancelFunc
 		listenCtx, cancel = context.WithCancel(context.Background())
@@ -1449,6 +1457,7 @@ func (cs *ClientSession) cancelAllResourceSubscriptions() {
 	cs.resourceSubsMu.Lock()
 	subs := cs.resourceSubs
 	cs.resourceSubs = nil
+	cs.resourceSubsClosed = true
 	cs.resourceSubsMu.Unlock()
 	for _, cancel := range subs {
 		cancel()
